@@ -1246,8 +1246,6 @@ Lemma refuted_homogenise : refutes_m "homogenise" "eval_monad_first" (VL [VI 1; 
 Proof. vm_compute. reflexivity. Qed.
 Lemma refuted_broadcast : refutes_d "broadcast" "eval_dyad_add" (VL [VI 1; VI 2]) m22 = true.
 Proof. vm_compute. reflexivity. Qed.
-Lemma refuted_reshape_nested : refutes_d "reshape-nested" "eval_dyad_reshape" (VL [VI 2]) (VL [VL [VI 1; VI 2; VI 3]]) = true.
-Proof. vm_compute. reflexivity. Qed.
 Lemma match_ints_without_fix : isclose_gen false (VI 100000) (VI 100001) = true /\ s_same (VI 100000) (VI 100001) = false.
 Proof. vm_compute. split; reflexivity. Qed.
 
@@ -1945,8 +1943,8 @@ Lemma plus_holds_outside_K : forall a b, canonical a && canonical b = true ->
 Proof.
   intros a b Hc Hd Hk. unfold m_dyad. rewrite Hc. cbn [negb].
   change (m_add a b = s2 sc_add a b).
-  change (dom_dyad "eval_dyad_add" a b) with (conformable a b && (all_pairs both_num a b || false || false)) in Hd.
-  rewrite !orb_false_r in Hd. apply andb_true_iff in Hd. destruct Hd as [Hconf Hp].
+  change (dom_dyad "eval_dyad_add" a b) with (conformable a b && ((all_pairs both_num a b && true) || false || false)) in Hd.
+  rewrite !orb_false_r in Hd. rewrite andb_true_r in Hd. apply andb_true_iff in Hd. destruct Hd as [Hconf Hp].
   destruct (pairs_num_trees a b Hconf Hp) as [Na Nb].
   apply add_spec; try assumption. exact (k_np_empty _ _ _ Hk).
 Qed.
@@ -1956,8 +1954,8 @@ Lemma minus_holds_outside_K : forall a b, canonical a && canonical b = true ->
 Proof.
   intros a b Hc Hd Hk. unfold m_dyad. rewrite Hc. cbn [negb].
   change (m_sub a b = s2 sc_sub a b).
-  change (dom_dyad "eval_dyad_subtract" a b) with (conformable a b && (all_pairs both_num a b || false || false)) in Hd.
-  rewrite !orb_false_r in Hd. apply andb_true_iff in Hd. destruct Hd as [Hconf Hp].
+  change (dom_dyad "eval_dyad_subtract" a b) with (conformable a b && ((all_pairs both_num a b && true) || false || false)) in Hd.
+  rewrite !orb_false_r in Hd. rewrite andb_true_r in Hd. apply andb_true_iff in Hd. destruct Hd as [Hconf Hp].
   destruct (pairs_num_trees a b Hconf Hp) as [Na Nb].
   apply sub_spec; try assumption. exact (k_np_empty _ _ _ Hk).
 Qed.
@@ -1967,8 +1965,8 @@ Lemma times_holds_outside_K : forall a b, canonical a && canonical b = true ->
 Proof.
   intros a b Hc Hd Hk. unfold m_dyad. rewrite Hc. cbn [negb].
   change (m_mul a b = s2 sc_mul a b).
-  change (dom_dyad "eval_dyad_multiply" a b) with (conformable a b && (all_pairs both_num a b || false || false)) in Hd.
-  rewrite !orb_false_r in Hd. apply andb_true_iff in Hd. destruct Hd as [Hconf Hp].
+  change (dom_dyad "eval_dyad_multiply" a b) with (conformable a b && ((all_pairs both_num a b && true) || false || false)) in Hd.
+  rewrite !orb_false_r in Hd. rewrite andb_true_r in Hd. apply andb_true_iff in Hd. destruct Hd as [Hconf Hp].
   destruct (pairs_num_trees a b Hconf Hp) as [Na Nb].
   apply mul_spec; try assumption. exact (k_np_empty _ _ _ Hk).
 Qed.
@@ -2163,4 +2161,263 @@ Proof.
   apply andb_true_iff in Hd. destruct Hd as [Hm Hk]. apply negb_true_iff in Hk.
   unfold m_match, kg_equal. rewrite Hs. cbn [negb].
   rewrite (kg_equal_rep_spec Hi); try assumption; try apply canon_rep_valid; [reflexivity|apply fuel2_enough].
+Qed.
+
+(* ------------------------------------------------------------------ T1.op packaging for the verbs routed through vec_fn2 *)
+Lemma zs_eqb_eq : forall s t, zs_eqb s t = true -> s = t.
+Proof.
+  unfold zs_eqb. induction s as [|x s IH]; destruct t as [|y t]; cbn; intros H; try discriminate; [reflexivity|].
+  apply andb_true_iff in H. destruct H as [H1 H2]. apply Z.eqb_eq in H1. subst. f_equal. apply IH. exact H2.
+Qed.
+
+Lemma real_eqb_eq : forall x y, real_eqb x y = true -> x = y.
+Proof.
+  intros x y H. destruct x as [s|s| |s m e]; destruct y as [t|t| |t n f]; cbn in H; try discriminate; try reflexivity.
+  - apply Bool.eqb_prop in H. subst. reflexivity.
+  - apply Bool.eqb_prop in H. subst. reflexivity.
+  - apply andb_true_iff in H. destruct H as [H H3]. apply andb_true_iff in H. destruct H as [H1 H2].
+    apply Bool.eqb_prop in H1. apply Pos.eqb_eq in H2. apply Z.eqb_eq in H3. subst. reflexivity.
+Qed.
+
+Lemma val_eqb_eq : forall a b, val_eqb a b = true -> a = b.
+Proof.
+  induction a using val_ind'; intros b Hb; destruct b; try discriminate Hb; cbn [val_eqb] in Hb.
+  - apply Z.eqb_eq in Hb. subst. reflexivity.
+  - apply real_eqb_eq in Hb. subst. reflexivity.
+  - apply Z.eqb_eq in Hb. subst. reflexivity.
+  - apply zs_eqb_eq in Hb. subst. reflexivity.
+  - apply zs_eqb_eq in Hb. subst. reflexivity.
+  - reflexivity.
+  - f_equal. revert l0 Hb. induction l as [|x l IHl]; intros l0 Hb; destruct l0 as [|y l0]; try discriminate Hb; [reflexivity|].
+    inversion H as [|? ? Hx Hl]. subst. cbn [same2] in Hb. apply andb_true_iff in Hb. destruct Hb as [H1 H2].
+    f_equal; [apply Hx; exact H1|apply IHl; assumption].
+Qed.
+
+Definition pgood (p : val -> val -> bool) : Prop :=
+  forall x y, p x y = true -> (is_strlike x = true -> is_num y = false) /\ (is_strlike y = true -> is_num x = false).
+
+Lemma all_right_str_rect : forall p, pgood p -> forall a, is_strlike a = true ->
+  forall sh b, rshape b = Some sh -> is_arr b = true -> all_right p a b = false.
+Proof.
+  intros p Hp a Ha. induction sh as [|d s IH]; intros b Hb Ab.
+  - pose proof (rshape_nil_atom _ Hb) as Nb. rewrite (is_num_not_arr _ Nb) in Ab. discriminate.
+  - destruct (is_arr_true _ Ab) as [lb ->]. destruct (rshape_list _ _ Hb) as [s0 [E F]]. inversion E. subst s0 d.
+    destruct lb as [|y r].
+    + cbn [all_right]. destruct a; try discriminate Ha; reflexivity.
+    + change (all_right p a (VL (y :: r))) with (all_right p a y && forallb (all_right p a) r).
+      inversion F as [|? ? Hy Hr]. subst.
+      destruct (is_arr y) eqn:Ay.
+      * rewrite (IH y Hy Ay). reflexivity.
+      * assert (Ny : is_num y = true).
+        { destruct s; [exact (rshape_nil_atom _ Hy)|]. destruct (rshape_cons_list _ _ _ Hy) as [l ->]. discriminate Ay. }
+        rewrite all_right_atom by exact Ay. destruct (p a y) eqn:E1; [|reflexivity].
+        destruct (Hp a y E1) as [H1 _]. rewrite (H1 Ha) in Ny. discriminate.
+Qed.
+
+Lemma all_pairs_rect_str : forall p, pgood p -> forall b, is_strlike b = true ->
+  forall sh a, rshape a = Some sh -> is_arr a = true -> all_pairs p a b = false.
+Proof.
+  intros p Hp b Hb.
+  assert (Ab : is_arr b = false) by (destruct b; try discriminate Hb; reflexivity).
+  induction sh as [|d s IH]; intros a Ha Aa.
+  - pose proof (rshape_nil_atom _ Ha) as Na. rewrite (is_num_not_arr _ Na) in Aa. discriminate.
+  - destruct (is_arr_true _ Aa) as [la ->]. destruct (rshape_list _ _ Ha) as [s0 [E F]]. inversion E. subst s0 d.
+    destruct la as [|x r].
+    + destruct b; try discriminate Hb; reflexivity.
+    + rewrite all_pairs_list_atom by (try exact Ab; discriminate). cbn [forallb].
+      inversion F as [|? ? Hx Hr]. subst.
+      destruct (is_arr x) eqn:Ax.
+      * rewrite (IH x Hx Ax). reflexivity.
+      * assert (Nx : is_num x = true).
+        { destruct s; [exact (rshape_nil_atom _ Hx)|]. destruct (rshape_cons_list _ _ _ Hx) as [l ->]. discriminate Ax. }
+        rewrite (all_pairs_atoms p x b Ax Ab). destruct (p x b) eqn:E1; [|reflexivity].
+        destruct (Hp x b E1) as [_ H2]. rewrite (H2 Hb) in Nx. discriminate.
+Qed.
+
+Lemma leaf2n_arrays : forall sf la lb, leaf2n sf (VL la) (VL lb) = leaf2 sf (VL la) (VL lb).
+Proof. reflexivity. Qed.
+
+Lemma vec2_leaf2n_eq : forall sf p, pgood p -> forall fuel a b,
+  conformable a b = true -> all_pairs p a b = true ->
+  vec2 fuel (leaf2n sf) a b = vec2 fuel (leaf2 sf) a b.
+Proof.
+  intros sf p Hp. induction fuel as [|f' IH]; intros a b Hc Hpr; [reflexivity|].
+  destruct (is_arr a) eqn:Aa; destruct (is_arr b) eqn:Ab.
+  - destruct (is_arr_true _ Aa) as [la ->]. destruct (is_arr_true _ Ab) as [lb ->].
+    rewrite !vec2_gen_LL. destruct (is_obj (VL la) || is_obj (VL lb)); [|apply leaf2n_arrays].
+    destruct (conformable_lists _ _ Hc) as [_ Hconf]. cbn [all_pairs] in Hpr.
+    f_equal. apply rzip_ext_combine. intros x y Hin. apply IH; [apply Hconf; exact Hin|eapply all2_combine; eassumption].
+  - destruct (is_arr_true _ Aa) as [la ->]. rewrite !vec2_gen_LA by exact Ab.
+    destruct (is_obj (VL la)) eqn:Oa.
+    + destruct (is_obj_list _ Oa) as [_ Nel]. rewrite all_pairs_list_atom in Hpr by assumption. rewrite forallb_forall in Hpr.
+      f_equal. apply rmap_ext. intros x Hx. apply IH; [apply conformable_atom_r; exact Ab|apply Hpr; exact Hx].
+    + unfold leaf2n. destruct (is_strlike b) eqn:Sb.
+      * destruct (not_obj_list _ Oa) as [sh R]. rewrite (all_pairs_rect_str p Hp b Sb sh _ R eq_refl) in Hpr. discriminate.
+      * rewrite andb_false_r. cbn [is_strlike andb orb]. reflexivity.
+  - destruct (is_arr_true _ Ab) as [lb ->]. rewrite !vec2_gen_AL by exact Aa.
+    rewrite all_pairs_atom_l in Hpr by exact Aa.
+    destruct (is_obj (VL lb)) eqn:Ob.
+    + destruct (is_obj_list _ Ob) as [_ Nel]. rewrite all_right_list in Hpr by exact Nel. rewrite forallb_forall in Hpr.
+      f_equal. apply rmap_ext. intros y Hy. apply IH; [apply conformable_atom_l; exact Aa|].
+      rewrite all_pairs_atom_l by exact Aa. apply Hpr. exact Hy.
+    + unfold leaf2n. destruct (is_strlike a) eqn:Sa.
+      * destruct (not_obj_list _ Ob) as [sh R]. rewrite (all_right_str_rect p Hp a Sa sh _ R eq_refl) in Hpr. discriminate.
+      * cbn [andb orb is_arr]. rewrite Aa. reflexivity.
+  - rewrite !vec2_gen_AA by assumption. unfold leaf2n. rewrite Aa, Ab. rewrite !andb_false_r. reflexivity.
+Qed.
+
+Lemma vec_op_holds : forall sf p, pgood p -> forall a b v,
+  conformable a b = true -> all_pairs p a b = true -> kb_vec a b = false -> norm v = v ->
+  s2 sf a b = Ok v -> vec2 (fuel2 a b) (leaf2n sf) a b = Ok v.
+Proof.
+  intros sf p Hp a b v Hc Hpr Hk Hn Hs. rewrite (vec2_leaf2n_eq sf p Hp) by assumption.
+  apply vec2_spec; try assumption. apply fuel2_enough.
+Qed.
+
+Lemma pgood_same_kind : pgood same_kind.
+Proof. intros x y H. destruct x; destruct y; try discriminate H; split; intros; try discriminate; reflexivity. Qed.
+Lemma pgood_both_num : pgood both_num.
+Proof. intros x y H. unfold both_num in H. destruct x; destruct y; try discriminate H; split; intros; try discriminate; reflexivity. Qed.
+Lemma pgood_both_int_nz : pgood both_int_nz.
+Proof. intros x y H. unfold both_int_nz in H. destruct x; destruct y; try discriminate H; split; intros; try discriminate; reflexivity. Qed.
+
+Local Open Scope string_scope.
+Local Open Scope Z_scope.
+
+Lemma k_vec_empty : forall (n kb rn : bool),
+  (if negb n then "homogenise" else if kb then "broadcast" else if negb rn then "homogenise" else "") = "" -> kb = false /\ rn = true.
+Proof. intros n kb rn H. destruct (negb n); [discriminate H|]. destruct kb; [discriminate H|]. destruct rn; [auto|discriminate H]. Qed.
+
+Lemma res_normal_ok : forall r v, r = Ok v -> res_normal r = true -> norm v = v.
+Proof. intros r v -> H. apply val_eqb_eq. exact H. Qed.
+
+Ltac vec_op_tac sc pg Hc Hd Hk Hs :=
+  unfold m_dyad; rewrite Hc; cbn [negb];
+  apply andb_true_iff in Hd; destruct Hd as [Hconf Hp];
+  rewrite !orb_false_r in Hp; try rewrite andb_true_r in Hp;
+  destruct (k_vec_empty _ _ _ Hk) as [Hkb Hrn];
+  apply (vec_op_holds sc _ pg); try assumption; exact (res_normal_ok _ _ Hs Hrn).
+
+Lemma equal_holds_outside_K : forall a b v, canonical a && canonical b = true ->
+  dom_dyad "eval_dyad_equal" a b = true -> k_dyad "eval_dyad_equal" a b = "" ->
+  s_dyad "eval_dyad_equal" a b = Ok v -> m_dyad "eval_dyad_equal" a b = Ok v.
+Proof.
+  intros a b v Hc Hd Hk Hs.
+  change (dom_dyad "eval_dyad_equal" a b) with (conformable a b && ((all_pairs same_kind a b && true) || false || false)) in Hd.
+  change (s_dyad "eval_dyad_equal" a b) with (s2 sc_equal a b) in Hs.
+  unfold m_dyad. rewrite Hc. cbn [negb].
+  apply andb_true_iff in Hd. destruct Hd as [Hconf Hp]. rewrite !orb_false_r in Hp. rewrite andb_true_r in Hp.
+  destruct (k_vec_empty _ _ _ Hk) as [Hkb Hrn].
+  change (m_equal a b = Ok v). apply equal_spec; try assumption. exact (res_normal_ok _ _ Hs Hrn).
+Qed.
+
+Lemma less_holds_outside_K : forall a b v, canonical a && canonical b = true ->
+  dom_dyad "eval_dyad_less" a b = true -> k_dyad "eval_dyad_less" a b = "" ->
+  s_dyad "eval_dyad_less" a b = Ok v -> m_dyad "eval_dyad_less" a b = Ok v.
+Proof.
+  intros a b v Hc Hd Hk Hs.
+  change (dom_dyad "eval_dyad_less" a b) with (conformable a b && ((all_pairs same_kind a b && true) || false || false)) in Hd.
+  change (s_dyad "eval_dyad_less" a b) with (s2 sc_less a b) in Hs.
+  vec_op_tac sc_less pgood_same_kind Hc Hd Hk Hs.
+Qed.
+Lemma more_holds_outside_K : forall a b v, canonical a && canonical b = true ->
+  dom_dyad "eval_dyad_more" a b = true -> k_dyad "eval_dyad_more" a b = "" ->
+  s_dyad "eval_dyad_more" a b = Ok v -> m_dyad "eval_dyad_more" a b = Ok v.
+Proof.
+  intros a b v Hc Hd Hk Hs.
+  change (dom_dyad "eval_dyad_more" a b) with (conformable a b && ((all_pairs same_kind a b && true) || false || false)) in Hd.
+  change (s_dyad "eval_dyad_more" a b) with (s2 sc_more a b) in Hs.
+  vec_op_tac sc_more pgood_same_kind Hc Hd Hk Hs.
+Qed.
+Lemma min_holds_outside_K : forall a b v, canonical a && canonical b = true ->
+  dom_dyad "eval_dyad_minimum" a b = true -> k_dyad "eval_dyad_minimum" a b = "" ->
+  s_dyad "eval_dyad_minimum" a b = Ok v -> m_dyad "eval_dyad_minimum" a b = Ok v.
+Proof.
+  intros a b v Hc Hd Hk Hs.
+  change (dom_dyad "eval_dyad_minimum" a b) with (conformable a b && ((all_pairs both_num a b && true) || false || false)) in Hd.
+  change (s_dyad "eval_dyad_minimum" a b) with (s2 sc_min a b) in Hs.
+  vec_op_tac sc_min pgood_both_num Hc Hd Hk Hs.
+Qed.
+Lemma max_holds_outside_K : forall a b v, canonical a && canonical b = true ->
+  dom_dyad "eval_dyad_maximum" a b = true -> k_dyad "eval_dyad_maximum" a b = "" ->
+  s_dyad "eval_dyad_maximum" a b = Ok v -> m_dyad "eval_dyad_maximum" a b = Ok v.
+Proof.
+  intros a b v Hc Hd Hk Hs.
+  change (dom_dyad "eval_dyad_maximum" a b) with (conformable a b && ((all_pairs both_num a b && true) || false || false)) in Hd.
+  change (s_dyad "eval_dyad_maximum" a b) with (s2 sc_max a b) in Hs.
+  vec_op_tac sc_max pgood_both_num Hc Hd Hk Hs.
+Qed.
+Lemma remainder_holds_outside_K : forall a b v, canonical a && canonical b = true ->
+  dom_dyad "eval_dyad_remainder" a b = true -> k_dyad "eval_dyad_remainder" a b = "" ->
+  s_dyad "eval_dyad_remainder" a b = Ok v -> m_dyad "eval_dyad_remainder" a b = Ok v.
+Proof.
+  intros a b v Hc Hd Hk Hs.
+  change (dom_dyad "eval_dyad_remainder" a b) with (conformable a b && ((all_pairs both_int_nz a b && true) || false || false)) in Hd.
+  change (s_dyad "eval_dyad_remainder" a b) with (s2 sc_fmod a b) in Hs.
+  vec_op_tac sc_fmod pgood_both_int_nz Hc Hd Hk Hs.
+Qed.
+
+Lemma zero_divisor_check : forall a b, both_atoms_zero_divisor a b = negb (is_arr a) && negb (is_arr b) && is_zero b.
+Proof. intros a b. unfold both_atoms_zero_divisor. destruct b; reflexivity. Qed.
+
+Lemma nonzero_atom_pair : forall p a b, (forall x y, p x y = true -> is_zero y = false) ->
+  all_pairs p a b = true -> negb (is_arr a) && negb (is_arr b) && is_zero b = false.
+Proof.
+  intros p a b Hp H. destruct (is_arr a) eqn:Aa; [reflexivity|]. destruct (is_arr b) eqn:Ab; [reflexivity|].
+  cbn [negb andb]. rewrite all_pairs_atoms in H by assumption. exact (Hp a b H).
+Qed.
+
+Lemma divide_holds_outside_K : forall a b, canonical a && canonical b = true ->
+  dom_dyad "eval_dyad_divide" a b = true -> k_dyad "eval_dyad_divide" a b = "" ->
+  m_dyad "eval_dyad_divide" a b = s_dyad "eval_dyad_divide" a b.
+Proof.
+  intros a b Hc Hd Hk. unfold m_dyad. rewrite Hc. cbn [negb].
+  change (m_div a b = (if true && negb (is_arr a) && negb (is_arr b) && is_zero b then Ok VU else s2 sc_div a b)).
+  change (dom_dyad "eval_dyad_divide" a b) with
+    (conformable a b && ((all_pairs both_num a b && (false || nonzero_tree b)) ||
+                         (true && negb (is_arr a) && negb (is_arr b) && both_num a b) || false)) in Hd.
+  pose proof (k_np_empty _ _ _ Hk) as Hkb.
+  apply andb_true_iff in Hd. destruct Hd as [Hconf Hd]. rewrite orb_false_r in Hd. cbn [andb orb] in *.
+  assert (Core : forall (Na : num_tree a = true) (Nb : num_tree b = true) (Nz : nonzero_tree b = true),
+            m_div a b = (if negb (is_arr a) && negb (is_arr b) && is_zero b then Ok VU else s2 sc_div a b)).
+  { intros Na Nb Nz. rewrite (div_spec a b Na Nb Hconf Hkb Nz).
+    destruct (is_arr a) eqn:Aa; [reflexivity|]. destruct (is_arr b) eqn:Ab; [reflexivity|]. cbn [negb andb].
+    unfold nonzero_tree in Nz. rewrite (all_leaves_atom _ b Ab) in Nz. apply andb_true_iff in Nz. destruct Nz as [_ Nz].
+    apply negb_true_iff in Nz. rewrite Nz. reflexivity. }
+  apply orb_true_iff in Hd. destruct Hd as [Hd|Hd].
+  - apply andb_true_iff in Hd. destruct Hd as [Hp Hz]. destruct (pairs_num_trees a b Hconf Hp) as [Na Nb].
+    apply Core; assumption.
+  - apply andb_true_iff in Hd. destruct Hd as [Hd Hbn]. apply andb_true_iff in Hd. destruct Hd as [Aa Ab].
+    apply negb_true_iff in Aa. apply negb_true_iff in Ab. unfold both_num in Hbn. apply andb_true_iff in Hbn. destruct Hbn as [Na Nb].
+    destruct (is_zero b) eqn:Zb.
+    + unfold m_div. rewrite zero_divisor_check, Aa, Ab, Zb. reflexivity.
+    + apply Core; unfold num_tree, nonzero_tree; rewrite ?(all_leaves_atom _ a Aa), ?(all_leaves_atom _ b Ab); try assumption.
+      rewrite Nb, Zb. reflexivity.
+Qed.
+
+Lemma idiv_holds_outside_K : forall a b v, canonical a && canonical b = true ->
+  dom_dyad "eval_dyad_integer_divide" a b = true -> k_dyad "eval_dyad_integer_divide" a b = "" ->
+  s_dyad "eval_dyad_integer_divide" a b = Ok v -> m_dyad "eval_dyad_integer_divide" a b = Ok v.
+Proof.
+  intros a b v Hc Hd Hk Hs. unfold m_dyad. rewrite Hc. cbn [negb].
+  change (m_idiv a b = Ok v).
+  change (s_dyad "eval_dyad_integer_divide" a b) with
+    (if true && negb (is_arr a) && negb (is_arr b) && is_zero b then Ok VU else s2 sc_idiv a b) in Hs.
+  change (dom_dyad "eval_dyad_integer_divide" a b) with
+    (conformable a b && ((all_pairs both_int_nz a b && true) || false ||
+                         (true && negb (is_arr a) && negb (is_arr b) && is_int a && is_int b))) in Hd.
+  destruct (k_vec_empty _ _ _ Hk) as [Hkb Hrn].
+  change (s_dyad "eval_dyad_integer_divide" a b) with
+    (if true && negb (is_arr a) && negb (is_arr b) && is_zero b then Ok VU else s2 sc_idiv a b) in Hrn.
+  cbn [andb] in *.
+  apply andb_true_iff in Hd. destruct Hd as [Hconf Hd]. rewrite orb_false_r in Hd. rewrite andb_true_r in Hd.
+  unfold m_idiv. rewrite zero_divisor_check.
+  destruct (negb (is_arr a) && negb (is_arr b) && is_zero b) eqn:Z0; [exact Hs|].
+  apply orb_true_iff in Hd. destruct Hd as [Hp|Hd].
+  - apply (vec_op_holds sc_idiv _ pgood_both_int_nz); try assumption. exact (res_normal_ok _ _ Hs Hrn).
+  - apply andb_true_iff in Hd. destruct Hd as [Hd Ib]. apply andb_true_iff in Hd. destruct Hd as [Hd Ia].
+    apply andb_true_iff in Hd. destruct Hd as [Aa Ab]. apply negb_true_iff in Aa. apply negb_true_iff in Ab.
+    rewrite Aa, Ab in Z0. cbn [negb andb] in Z0.
+    apply (vec_op_holds sc_idiv _ pgood_both_int_nz); try assumption; [|exact (res_normal_ok _ _ Hs Hrn)].
+    rewrite all_pairs_atoms by assumption. unfold both_int_nz. rewrite Ia, Ib, Z0. reflexivity.
 Qed.
